@@ -334,6 +334,7 @@ func Main(cfg *Config) {
 		}
 		fmt.Printf("%s %-28s pre<=%d dev<=%d execs=%d nodes=%d outcomes=%d exhaustive=%v %.1fs\n", cfg.Property, sc.Name, sc.MaxPre, sc.MaxDev, st.Execs, st.Nodes, st.Outcomes, st.Exhaustive, st.WallS)
 	}
+	closePool()
 	cov.DistinctNontrivial = int64(len(outcomesAll))
 	if len(cfg.HistScopes) > 0 && !rep.Failed() {
 		hist.RunScopes(cfg.Property, cfg.HistScopes, *tier, *only, *nworkers, time.Now().Add(time.Duration(*budget)*time.Second/3), rep, &cov, "-histworker")
@@ -369,7 +370,24 @@ func trimHist(h map[string]int64, n int) map[string]int64 {
 	return out
 }
 
+// pool keeps one worker process per slot alive across scenarios.
+var pool []*workerProc
+
+func closePool() {
+	for _, wp := range pool {
+		if wp != nil {
+			wp.in.Flush()
+			wp.cmd.Process.Kill()
+			wp.cmd.Wait()
+		}
+	}
+	pool = nil
+}
+
 func exploreScenario(cfg *Config, sc *Scenario, nworkers int, deadline time.Time) (*Stats, []vrec, string) {
+	if len(pool) < nworkers {
+		pool = append(pool, make([]*workerProc, nworkers-len(pool))...)
+	}
 	start := time.Now()
 	st := &Stats{Scenario: sc.Name, MaxPre: sc.MaxPre, MaxDev: sc.MaxDev, Exhaustive: true, TopOutcome: map[string]int64{}}
 	var viols []vrec
@@ -415,14 +433,8 @@ func exploreScenario(cfg *Config, sc *Scenario, nworkers int, deadline time.Time
 		wg.Add(1)
 		go func(w int) {
 			defer wg.Done()
-			var wp *workerProc
-			defer func() {
-				if wp != nil {
-					wp.in.Flush()
-					wp.cmd.Process.Kill()
-					wp.cmd.Wait()
-				}
-			}()
+			wp := pool[w]
+			defer func() { pool[w] = wp }()
 			for {
 				mu.Lock()
 				for len(queue) == 0 && inflight > 0 && !stop {
@@ -471,6 +483,9 @@ func exploreScenario(cfg *Config, sc *Scenario, nworkers int, deadline time.Time
 				if err != nil {
 					infra = fmt.Sprintf("worker failed on prefix %v: %v", pfx, err)
 					stop = true
+					wp.cmd.Process.Kill()
+					wp.cmd.Wait()
+					wp = nil
 				} else {
 					merge(res)
 					if infra != "" {
